@@ -257,7 +257,7 @@ func checkNudge(c *Ctx, r *Report) {
 		}
 		hbad := ""
 		if err := foldPre(hooks); err != nil {
-			hbad = err.Error()
+			hbad = "?" + err.Error()
 		} else {
 			initV, err := c.rpfExpr(p, as.Rhs[0], baseEnv, hooks)
 			wantInit := int64(0)
